@@ -8,7 +8,7 @@ def run(chk, replay=None):
     th = chk.tier == 'thorough'
     LIM = streams.line_limit()
     good = [l for l, _ in streams.grammar_lines(rng, 40, 0.1) + streams.fixture_lines()]
-    odd = [l for l, _ in streams.search_lines(rng, None if th else 450) + streams.byte_lines(rng, good, 2500 if th else 500) + streams.wrapper_lines(rng, 3000 if th else 600)]
+    odd = [l for l, _ in streams.degenerate_lines() + streams.search_lines(rng, None if th else 450) + streams.byte_lines(rng, good, 2500 if th else 500) + streams.wrapper_lines(rng, 3000 if th else 600)]
     odd = [l for l, _ in streams.corpus_lines() + streams.anyjson_lines(rng, 1200 if th else 350) + streams.grammar_lines(rng, 1200 if th else 300, 0.2)] + [gen.plan_line(rng, rng.choice(['mydb.users', 'd.c', 'other.x'])) for _ in range(400 if th else 150)] + odd
     # extreme nesting and long-but-legal lines
     for d in ((100, 1000, 5000, 20000) if th else (100, 1000, 5000)):
